@@ -23,7 +23,7 @@ var (
 	fmtHugeArg = []string{"big62", "minfix", "big70", "str", "list3", "double"}
 	// block and otherwise structured control strings, balanced or not
 	fmtTemplates = []string{
-		"~(~a~)", "~:(~a~)", "~@(~a~)", "~:@(~a~)", "~[a~;b~]", "~:[a~;b~]", "~@[a~]", "~#[a~;b~]", "~[a~:;b~]", "~v[a~;b~]", "~1[a~;b~]",
+		"~(~a~)", "~:(~a~)", "~@(~a~)", "~:@(~a~)", "~[a~;b~]", "~:[a~;b~]", "~@[a~]", "~#[a~;b~]", "~[a~:;b~]", "~v[a~;b~]", "~1[a~;b~]", "~[a~]", "~[a~;b~;c~]", "~2[a~;b~]", "~1[a~:;b~]", "~3[a~;b~;c~:;d~]", "~#[a~]", "~#[a~;b~;c~]",
 		"~{~a~}", "~:{~a~}", "~@{~a~}", "~:@{~a~}", "~{~a~^, ~}", "~{~}", "~1{~a~}", "~v{~a~}", "~{~a~:}", "~0{~a~:}", "~{~a ~a~}", "~:{~a~:^~}",
 		"~<~a~>", "~10<~a~;~a~>", "~10:<~a~>", "~10@<~a~>", "~<~a~:>", "~<~a~;~a~;~a~>", "~<~a~:;~a~>", "~v<~a~>",
 		"~/foo/", "~/c09-fn/", "~:/c09-fn/", "~1,2/c09-fn/", "~?", "~@?", "~? ~a", "~\n   x", "~:\n   x", "~@\n   x",
